@@ -653,6 +653,16 @@ pub fn run_rung(construct: &str, d: usize, horizon: Duration) -> RungResult {
 }
 
 /// `debug_build`: run the rung with the debug build of the harness and of jsonpath-rust (JPMC_DEV_BIN)
+/// CPU time (user + system) a process has used so far, from /proc/<pid>/stat (clock ticks of 10 ms)
+fn child_cpu(pid: u32) -> Option<Duration> {
+    let st = std::fs::read_to_string(format!("/proc/{}/stat", pid)).ok()?;
+    let rest = &st[st.rfind(')')? + 1..];
+    let f: Vec<&str> = rest.split_whitespace().collect();
+    // after the command: state is field 0, utime field 11, stime field 12
+    let ticks = f.get(11)?.parse::<u64>().ok()? + f.get(12)?.parse::<u64>().ok()?;
+    Some(Duration::from_millis(ticks * 10))
+}
+
 pub fn run_rung_with(construct: &str, d: usize, horizon: Duration, debug_build: bool) -> RungResult {
     let exe = if debug_build { std::path::PathBuf::from(std::env::var("JPMC_DEV_BIN").expect("JPMC_DEV_BIN")) } else { std::env::current_exe().expect("current exe") };
     let mut child = Command::new(exe)
@@ -682,7 +692,10 @@ pub fn run_rung_with(construct: &str, d: usize, horizon: Duration, debug_build: 
                 };
             }
             Ok(None) => {
-                if t0.elapsed() > horizon {
+                // the horizon is CPU time of the child (a busy machine must not turn slow into "hangs"); a child that
+                // neither finishes nor computes (blocked) is given up after eight horizons of wall-clock time
+                let el = t0.elapsed();
+                if el > horizon && (child_cpu(child.id()).map_or(true, |c| c > horizon) || el > horizon * 8) {
                     let _ = child.kill();
                     let _ = child.wait();
                     return RungResult::Timeout;
